@@ -141,7 +141,7 @@ static const DimensionReductionMethod tDistributedStochasticNeighborEmbedding("t
 
 /** Manifold Sculpting as described in
  * @cite Gashler2007 */
-static const DimensionReductionMethod ManifoldSculpting("Manifold Sculpting", RequiresFeatures);
+static const DimensionReductionMethod ManifoldSculpting("Manifold Sculpting", RequiresDistanceAndFeatures);
 
 /** Passing through (doing nothing just passes the
  * data through) */
